@@ -48,8 +48,12 @@ package meta
 //@ axiom refResume: forall e *Engine, l bool, h []byte, at int, at2 int :: (refFound(e, l, h, at) && at <= at2 && at2 <= refStart(e, l, h, at)) ==> (refFound(e, l, h, at2) && refStart(e, l, h, at2) == refStart(e, l, h, at) && refEnd(e, l, h, at2) == refEnd(e, l, h, at))
 //@ axiom refResumeNone: forall e *Engine, l bool, h []byte, at int, at2 int :: (!refFound(e, l, h, at) && at <= at2) ==> !refFound(e, l, h, at2)
 
-// stdlib's allMatches loop as a recursive count: budget < 0 means unlimited
-//@ opaque spec func cnt(e *Engine, l bool, h []byte, pos int, prev int, budget int) int = ite(budget == 0 || pos > len(h) || !refFound(e, l, h, pos), 0, ite(refEnd(e, l, h, pos) == pos, ite(refStart(e, l, h, pos) == prev, cnt(e, l, h, ite(runeW(h, pos) > 0, pos + runeW(h, pos), len(h) + 1), pos, budget), 1 + cnt(e, l, h, ite(runeW(h, pos) > 0, pos + runeW(h, pos), len(h) + 1), pos, ite(budget > 0, budget - 1, budget))), 1 + cnt(e, l, h, refEnd(e, l, h, pos), refEnd(e, l, h, pos), ite(budget > 0, budget - 1, budget))))
+// stdlib's allMatches loop as a recursive count. State: resume offset pos and adj = "the previous match ended
+// exactly at pos" (stdlib's prevMatchEnd == pos, the only way prevMatchEnd can influence the next step, because a
+// match found from pos starts at or after pos); budget < 0 means unlimited.
+//@ spec func nextPos(h []byte, pos int) int = ite(runeW(h, pos) > 0, pos + runeW(h, pos), len(h) + 1)
+//@ spec func decB(b int) int = ite(b > 0, b - 1, b)
+//@ opaque spec func cnt(e *Engine, l bool, h []byte, pos int, adj bool, budget int) int = ite(budget == 0 || pos > len(h) || !refFound(e, l, h, pos), 0, ite(refEnd(e, l, h, pos) == pos, ite(adj, cnt(e, l, h, nextPos(h, pos), false, budget), 1 + cnt(e, l, h, nextPos(h, pos), false, decB(budget))), 1 + cnt(e, l, h, refEnd(e, l, h, pos), true, decB(budget))))
 
 // engine invariant (establishment by CompileRegexp is ASSUMED, DESIGN 6.0): the forward/reverse DFA pair computes
 // the leftmost-first reference
@@ -80,9 +84,9 @@ package meta
 //@   props C04 C11 C07 C05
 //@   requires engineOK(e) && len(haystack) <= 140737488355328
 //@   modifies @searchState
-//@   ensures result == cnt(e, e.longest, haystack, 0, -1, normB(n))
+//@   ensures result == cnt(e, e.longest, haystack, 0, false, normB(n))
 //@   loop 1: invariant 0 <= pos && pos <= len(haystack) + 1 && 0 <= count && count <= pos && (n <= 0 || count < n) && n != 0 && state != nil && lastNonEmptyEnd <= pos
-//@   loop 1: invariant count + cnt(e, e.longest, haystack, pos, lastNonEmptyEnd, ite(n < 0, -1, n - count)) == cnt(e, e.longest, haystack, 0, -1, normB(n))
+//@   loop 1: invariant count + cnt(e, e.longest, haystack, pos, lastNonEmptyEnd == pos, ite(n < 0, -1, n - count)) == cnt(e, e.longest, haystack, 0, false, normB(n))
 //@   loop 1: decreases len(haystack) + 1 - pos
 
 // public engine search API: contract ASSUMED at this layer (dispatch layer: DESIGN 6/C02)
@@ -97,7 +101,7 @@ package meta
 //@   props C04 C11 C07 C05
 //@   requires engineOK(e) && len(haystack) <= 140737488355328
 //@   modifies results[*], @searchState
-//@   ensures len(result) == cnt(e, e.longest, haystack, 0, -1, normB0(n))
+//@   ensures len(result) == cnt(e, e.longest, haystack, 0, false, normB0(n))
 //@   ensures forall k :: 0 <= k && k < len(result) ==> isRefMatch(e, e.longest, haystack, result[k][0], result[k][1])
 //@   ensures forall k :: 0 <= k && k + 1 < len(result) ==> result[k][1] <= result[k+1][0] && result[k][0] < result[k+1][0]
 //@   ensures (base(result) == base(results) && results != nil) || fresh(result)
@@ -110,11 +114,11 @@ package meta
 //@   loop 1: invariant forall j :: j < 0 && 0 <= off(old(results)) + j ==> old(results)[j] == old(results[j])
 //@   loop 1: invariant base(results) == base(old(results)) ==> off(results) == off(old(results))
 //@   loop 1: invariant 0 <= pos && pos <= len(haystack) && len(results) <= pos && lastMatchEnd <= pos && state != nil && (n <= 0 || len(results) <= n)
-//@   loop 1: invariant len(results) + cnt(e, e.longest, haystack, pos, lastMatchEnd, ite(n <= 0, -1, n - len(results))) == cnt(e, e.longest, haystack, 0, -1, normB0(n))
+//@   loop 1: invariant len(results) + cnt(e, e.longest, haystack, pos, lastMatchEnd == pos, ite(n <= 0, -1, n - len(results))) == cnt(e, e.longest, haystack, 0, false, normB0(n))
 //@   loop 1: invariant forall k :: 0 <= k && k < len(results) ==> isRefMatch(e, e.longest, haystack, results[k][0], results[k][1]) && results[k][1] <= pos && results[k][0] < pos && 0 <= results[k][0] && results[k][0] <= results[k][1] && results[k][1] <= len(haystack)
 //@   loop 1: invariant forall k :: 0 <= k && k + 1 < len(results) ==> results[k][1] <= results[k+1][0] && results[k][0] < results[k+1][0]
 //@   loop 1: invariant (base(results) == base(old(results)) && old(results) != nil) || fresh(results)
-//@   loop 1: exit len(results) == cnt(e, e.longest, haystack, 0, -1, normB0(n))
+//@   loop 1: exit len(results) == cnt(e, e.longest, haystack, 0, false, normB0(n))
 
 //@ trusted func (*Engine).IsMatch
 //@   requires engineOK(e)
@@ -140,7 +144,7 @@ package meta
 //@   props C04 C11 C07
 //@   requires engineOK(e) && len(haystack) <= 140737488355328
 //@   modifies results[*], @searchState
-//@   ensures genericEnum(e) ==> len(result) == cnt(e, e.longest, haystack, 0, -1, normB0(n))
+//@   ensures genericEnum(e) ==> len(result) == cnt(e, e.longest, haystack, 0, false, normB0(n))
 //@   ensures genericEnum(e) ==> (forall k :: 0 <= k && k < len(result) ==> isRefMatch(e, e.longest, haystack, result[k][0], result[k][1]))
 //@   ensures forall k :: 0 <= k && k < len(result) ==> 0 <= result[k][0] && result[k][0] <= result[k][1] && result[k][1] <= len(haystack)
 //@   ensures n > 0 ==> len(result) <= n
